@@ -185,8 +185,8 @@ PROPS["C15"] = {
 
 PROPS["C05"] = {
     "level": "proof", "title": "Concurrent operations are linearizable: no lost, stale or phantom reads",
-    "lean_modules": ["Rain.Props.Proto", "Rain.Props.Lsm"], "components": ["c05"], "sig_prefixes": ["c05:", "c09:"],
-    "technique": "Lean 4 invariant proofs over the group-commit/read-cut protocol model for every interleaving and grouping (every acknowledged batch applied exactly once in sequence order, WAL before memtable, a reader's cut is stable under all later steps) and over the LSM model (flush, compaction, trivial move preserve every view) + directed schedules that park a real reader/writer/worker at every unlocked window while other threads run to completion + writer-trace tie (proto.write) + multi-thread stress with a per-key register history checker",
+    "lean_modules": ["Rain.Props.Proto", "Rain.Props.Lsm", "Rain.Props.Group"], "components": ["c05"], "sig_prefixes": ["c05:", "c09:"],
+    "technique": "Lean 4 invariant proofs over the group-commit/read-cut protocol model for every interleaving and grouping (every acknowledged batch applied exactly once in sequence order, WAL before memtable, a reader's cut is stable under all later steps) and over the LSM model (flush, compaction, trivial move preserve every view) + directed schedules that park a real reader/writer/worker at every unlocked window while other threads run to completion + writer-trace tie (proto.write) + multi-thread stress with a per-key register history checker + the grouping rule itself (build_group_commit_batch: size caps regenerated from the sources, sync rule, batch-less forced-compaction writers) as a Lean model with theorems (the group is a non-empty prefix, members have batches, popped writers beyond the members are at most one trailing batch-less writer, size bound, maximality, independence of later arrivals) compared with every group the real code forms while several writers are queued (the queue the leader saw is recorded by a hook)",
     "level_text": "Machine-checked proofs: (1) protocol model of apply_changes / build_group_commit_batch / the published sequence number / read cuts, one step per critical section and one per unlocked shared access: C05_exactly_once_in_order, C05_wal_before_memtable, C05_memtable_contents, C05_cut_stable for every reachable state, i.e. every interleaving and every group-commit grouping; (2) LSM model: a cut (memtable, immutable memtable, version, sequence) keeps answering the same whatever flushes/compactions/moves/deletions complete afterwards (C01/C03 theorems, view preservation). Linearizability follows on the model: the linearization point of a write is the publication of its sequence number, of a read its cut. Tied to the code on every run by forcing the model's interleavings on the real database through the scheduling hooks: a get parked after releasing the mutex (and again before reading tables) while rotation, flush, version installation, compaction and file deletion run to completion; a writer parked before/after the WAL append and between memtable insertions while readers and other writers run; queued writers of sizes that do and do not fit the group cap (each acknowledged put must be in the WAL and the memtable exactly once, hook trace compared with the model); the worker parked while building a table, writing the manifest, in the compaction loop and before deleting files. A stress phase (many threads, tiny memtable) checks per-key register histories with invocation/response times. Not exhibited: interleavings finer than hook-to-hook segments, weak-memory effects.",
     "design_ref": "5 (C05)",
     "trusted_base": DB_TB + ["scheduling hooks sit at the boundaries of the unlocked windows; interleavings finer than hook-to-hook segments, data races inside the skip list and weak-memory effects of ArcSwap/atomics are not exhibited", "the register checker is sound (never alarms on a linearizable history) and complete for single-writer-per-key histories; keys written by several threads are checked for real-time order and membership only"],
